@@ -16,6 +16,7 @@ import NrDaemon.Driver.Race
 import NrDaemon.Driver.Pid
 import NrDaemon.Driver.Watch
 import NrDaemon.Driver.Rules
+import NrDaemon.Driver.AppKey
 /-!
   Op-line driver (core Lean only; built as a `lean_exe`).
 
@@ -53,6 +54,7 @@ def dispatch (st : DState) (line : String) (impl : Option String) : DState × St
   | some "argv" => (st, argvStep t impl)
   | some "redact" => (st, redactStep t impl)
   | some "rules" => (st, rulesStep t impl)
+  | some "appkey" => (st, appkeyStep t impl)
   | some "watch" => let (c, o) := watchStep st.watch t impl; ({ st with watch := c }, o)
   | some "pid" => let (c, o) := pidStep st.pid t impl; ({ st with pid := c }, o)
   | some "race" => (st, raceStep t impl)
